@@ -2,16 +2,17 @@
 C16 — A tableau's bookkeeping is consistent at every step.
 
 1. Lean: Ptx.Props.C16 — step-level invariants of the calculus model with its event record (`Book`,
-   Ptx/Tab/Tree.lean) for EVERY legal step, lifted to every derivation from the trunk; theorems about the
-   tree builder `Tree.build` (leaves / counts).
+   Ptx/Tab/Tree.lean) for EVERY legal step of ANY logic data, lifted to every derivation from the trunk;
+   theorems about the tree builder `Tree.build` (no exception path, one leaf per branch with the branch as
+   its root-to-leaf path, counts, distinct nodes) and the statistics.
 2. Implementation-side oracle (no Lean): real runs in worker processes (harness/props/_c16_worker.py);
    after the trunk and after EVERY rule application the tableau is observed only through the public API
    and the public events and the property's clauses are checked directly; after finishing, tree and
    statistics are recomputed independently.
 3. Correspondence: the history of every run is replayed through the Lean model (`tree` request of
    Ptx/Drv/Tree.lean); the per-prefix observations (#branches, open view, branch lengths), the final
-   stat record (recorded step numbers of additions, ticks, closures, parents) and the finished tree
-   (every field the property names) must agree exactly.
+   stat record (recorded step numbers of additions, ticks, closures, parents), the finished tree
+   (every field the property names) and the statistics (counts and result word) must agree exactly.
 """
 from __future__ import annotations
 
@@ -180,11 +181,13 @@ def run(ctx: Ctx):
     # ---- correspondence with the Lean model
     corr_ok = 0
     if res.ok:
-        answers = drive([o['request'] for _, o, _ in good])
+        # a final `P` tells the model that the run finished prematurely (result word of the statistics)
+        answers = drive([o['request'] + (' ## P' if o['premature'] else '') for _, o, _ in good])
         for (j, o, sd), a in zip(good, answers):
             if a == 'err:unknown-request':
                 raise InfraError('the driver does not know the `tree` request: Ptx/Drv/Tree.lean is not registered in Driver/Main.lean')
-            exp = 'ok ' + o['obs'] + ' @@ ' + o['stat'] + ' @@ ' + (o['tree'] if o['tree'] is not None else 'none')
+            exp = ('ok ' + o['obs'] + ' @@ ' + o['stat'] + ' @@ ' + (o['tree'] if o['tree'] is not None else 'none')
+                   + ' @@ ' + o['stats'])
             if a == exp:
                 corr_ok += 1
                 continue
@@ -193,7 +196,7 @@ def run(ctx: Ctx):
                 continue        # the oracle already reported a failing clause on this very run
             part = 'replay'
             if a.startswith('ok '):
-                for name, x, y in zip(('prefix-observations', 'stat-record', 'tree'), a[3:].split(' @@ '), exp[3:].split(' @@ ')):
+                for name, x, y in zip(('prefix-observations', 'stat-record', 'tree', 'stats'), a[3:].split(' @@ '), exp[3:].split(' @@ ')):
                     if x != y:
                         part = name
                         break
@@ -209,13 +212,17 @@ def run(ctx: Ctx):
                 option_matrix='is_group_optim × is_rank_optim (4) × build/step × max_steps {1,2,3,5,8,13,30,none} × models on/off; order seeds ' + str(seeds),
                 rule='seeded random arguments per logic over four fragments (propositional, modal, first-order, identity); distinct = '
                      'distinct (logic, argument, options, mode, limit, order seed); every prefix of every history is checked by the oracle; '
-                     'every run is replayed through the Lean model and compared (prefix observations, stat record, tree)')
+                     'every run is replayed through the Lean model and compared (prefix observations, stat record, tree, statistics)')
     ctx.coverage['trusted_base'] += [
         'harness/props/_c16_worker.py (observer: public API + public events only; independent recomputation of tree counts)',
         'harness/tabworker.enc_step (history entry → wire step), Ptx/Drv/Tree.lean (canonical dumps)']
     ctx.assumptions += [
         'Lean theorems are about the calculus model (any legal step of any logic data) with the event record Book; its tie to '
-        'Tableau.__listen_on / Tree._build is the sampled correspondence above.',
+        'Tableau.__listen_on / Tree._build / _compute_stats is the sampled correspondence above.',
+        'The tree theorems (no exception path in _build, one leaf per branch, distinct nodes) need that every rule adds at least '
+        'one node on every branch it makes; this is kernel-checked for all generated logics on every run (C16_gen_addsNonempty).',
+        'A few modal proofs pick different (equally ranked) rule applications in different processes even under the hash hook, so '
+        'histograms may differ by a few units between runs of the same seed; the verdict does not (the theorems cover every order).',
         'EventEmitter dispatch order and re-entrant listeners are not modelled; user calls of Tableau.branch()/Branch.append outside rules are outside the property.',
         'STEP_ADDED of a node is recorded only on the branch it was appended to; tab.stat(child, inherited_node, STEP_ADDED) raises KeyError or returns '
         'the default Flag(0) (after a tick); the oracle reads node.step for inherited nodes.']
